@@ -49,4 +49,16 @@ theorem realT_sane : realT.Sane where
   comma_is := by decide
   comma_prec := by decide
 
+/-- generated obligations for the soundness theorems: one comma token, a right-associative assignment level -/
+theorem opTokens_nodup : opTokens.Nodup := by decide
+theorem realT_comma_unique : ∀ o, realT.comma o = true → o = realT.commaTok := by
+  intro o h
+  simp only [realT] at h ⊢
+  have h' : opTokens[o]? = some Kind.CommaToken := by simpa using h
+  obtain ⟨hlt, hget⟩ := List.getElem?_eq_some_iff.mp h'
+  have := opTokens_nodup.idxOf_getElem o hlt
+  rw [hget] at this
+  exact this.symm
+theorem realT_asg_right_assoc : realT.ra realT.asg = true := by decide
+
 end PsycheModel.Expr
